@@ -27,7 +27,7 @@ RULE = ("full in-memory stack: real Router + 1..3 generated drivers (1-3 groups,
 ASSUMPTIONS = ["BLOB payloads are compared by C08; Element.enabled toggles at run time are not in the quantifier",
                "numbers are compared numerically within the format's resolution",
                "a device without enabled properties may or may not be listed"]
-REQUIRED_EVENTS = ["sessions", "sessions_with_a_tty_client", "tty_client_properties_compared", "sessions_with_lagging_blob_link", "driver_ops_during_handshake", "checkpoints", "library_client_properties_compared", "reference_mirror_messages",
+REQUIRED_EVENTS = ["sessions", "client_handshakes_for_one_device", "sessions_with_a_tty_client", "tty_client_properties_compared", "sessions_with_lagging_blob_link", "driver_ops_during_handshake", "checkpoints", "library_client_properties_compared", "reference_mirror_messages",
                    "snooping_client_checkpoints", "ops_with_bytes_in_flight", "depth3_sessions"]
 
 QUICK_SHARDS = 4
@@ -311,7 +311,19 @@ async def session(ctx, case):
                 if inflight:
                     ctx.count("ops_with_bytes_in_flight")
             elif r < 0.85:
-                client.handshake()
+                # a second handshake: plain, or asking for one device / one property only (what waitforevent's polling sends) -
+                # asking again for less must not make the connection learn less about everything else afterwards
+                hr = rng.random()
+                if hr < 0.4:
+                    client.handshake()
+                elif hr < 0.7:
+                    client.handshake(device=rng.choice(specs)["name"])
+                    ctx.count("client_handshakes_for_one_device")
+                else:
+                    sp_ = rng.choice(specs)
+                    vs_ = [v["name"] for _, v in D.vectors_of(sp_)]
+                    client.handshake(device=sp_["name"], name=rng.choice(vs_) if vs_ else None)
+                    ctx.count("client_handshakes_for_one_device")
                 ncli += 1
                 ctx.count("client_handshakes")
             elif r < 0.95:
